@@ -21,6 +21,8 @@ def is_neg_test(c):
 
 
 def check(ctx):
+    from ..lib import discarded_results
+    ctx.sub(discarded_results, 'C10.S1', ('qstrader/portcon/order_sizer/', 'qstrader/broker/fee_model/'), 'each asset is sized with its own allocation, fee estimate and price')
     ctx.sub(s1_formula)
     ctx.sub(s2_guards)
     # the fee estimate is the configured fee model applied to the share: the model must not depend on the (placeholder) quantity
@@ -49,7 +51,12 @@ def s1_formula(ctx):
             nb += 1
             tag = cond_str(bp)[:60]
             q, fee, price = b['quantity'], b['fee'], b['price']
-            if not ctx.require(q is not None and len(fee) == 1 and len(price) == 1, 'C10.S1', 'each asset gets one quantity from one fee estimate and one price [%s]' % tag, lp.site,
+            if q is None or not fee or not price:
+                # the estimate or the price is obtained somewhere this rule does not follow (looked up in an earlier pass, carried in records): not read
+                ctx.undecided('C10.S1', 'each asset gets one quantity from one fee estimate and one price [%s]' % tag, lp.site,
+                              '%s fee calls, %s price lookups on the sizing path' % (len(fee), len(price)))
+                continue
+            if not ctx.require(len(fee) == 1 and len(price) == 1, 'C10.S1', 'each asset gets one quantity from one fee estimate and one price [%s]' % tag, lp.site,
                                '%s fee calls, %s price lookups' % (len(fee), len(price)), key='C10.S1|shape'):
                 continue
             fe, pe = fee[0], price[0]
